@@ -348,11 +348,28 @@ Section Payload.
     | _, _ => false
     end.
 
+  (* where the link layer was told to send a frame: a datagram for 255.255.255.255 goes to the broadcast MAC
+     (ipv4_session.rs:98-103); an answer of a recorder goes to the MAC the datagram came from (ipv4.rs:244,
+     taken from the trace); otherwise Recipient.mac of the route of the LOCAL address (ipv4_session.rs:124-126),
+     which ARP may have filled in *)
+  Definition frame_to_ok (c : config) (f : fev) : bool :=
+    let d := f_d f in
+    if fst (d_dst d) =? BCAST then f_to f =? -2
+    else if peqb (d_payload d) (c_rpy c) then true
+    else
+      let mc := nth (f_from f) (c_machines c) dummy_mcfg in
+      match rget (mc_routes mc) (fst (d_src d)) with
+      | Some (Some x) => f_to f =? x
+      | Some None => if mc_arp mc then true else f_to f =? -3
+      | None => false
+      end.
+
   (* verdict: 0 accept; otherwise the number of the first check that fails *)
   Definition validate (c : config) (tr : trace) : Z :=
     if negb (list_eqb (list_eqb Z.eqb) (map listen_codes (c_machines c)) (tr_listen tr)) then 1
     else if negb (tx_codes_ok c (c_ops c) (tr_tx tr)) then 2
     else if negb (msub_eq sop_eqb (expected_frames c tr) (observed_frames tr)) then 3
+    else if negb (forallb (frame_to_ok c) (tr_frames tr)) then 6
     else if any_panic c tr then 4
     else if negb (msub_eq dev_eqb (predicted c tr) (tr_dlv tr)) then 5
     else 0.
@@ -428,6 +445,7 @@ Arguments arrivals {P}.
 Arguments predicted {P}.
 Arguments any_panic {P}.
 Arguments validate {P}.
+Arguments frame_to_ok {P}.
 Arguments dev_eqb {P}.
 Arguments dgram_eqb {P}.
 Arguments sop_eqb {P}.
